@@ -399,3 +399,267 @@ class RhythmSessionSuite(SystemSuite):
     def scenarios(self, rng, tier):
         for i in range(60 if tier == "quick" else 600):
             yield rhythm_session(rng, "regression" if i % 2 else "wait")
+
+
+# ============================================================================= C06 / C07: start and stop discipline
+def rows_rung(out):
+    """[(row_number, [bells...], first_wait_time)] in the order the Bot began them (a new entry
+    whenever a wait for place 0 is logged)."""
+    rows = []
+    for it in out.get("trace", []):
+        if it[1] == "r_wait":
+            bell, row, place = it[3], it[4], it[5]
+            if place == 0:
+                rows.append([row, [], Fraction(it[0])])
+            if rows:
+                rows[-1][1].append(bell)
+    return rows
+
+
+def touch_spec(n_rows, sp_hand, udi, stop_at_rounds, calls, is_rounds_row, method_len=None):
+    """Row-level reading of C06/C07 (DESIGN.md 3, TouchSpec), written without counters:
+    returns a list of kinds 'O' (opening row), ('M', k) (k-th method row), 'R' (rounds) for the rows
+    rung from Look to; the list ends where ringing stops.  `calls` = [(row in progress, call)] in
+    delivery order; `is_rounds_row(kind)` tells whether a row of that kind equals rounds."""
+    kinds = []
+    m = None                       # row at which the (next) method start is due
+    if udi:
+        m = 2 if sp_hand else 3
+    k = None                       # next method row index, None when not in the method
+    thats_all_at = None
+    stand = False
+    to_rounds_from = None          # rows >= this are rounds
+    to_opening_from = None
+    for i in range(n_rows):
+        # calls delivered while row i-1 was in progress have taken effect by now
+        if i > 0:
+            for (r, c) in calls:
+                if r != i - 1:
+                    continue
+                in_method = kinds[i - 1] != "O" and kinds[i - 1] != "R" and to_opening_from is None
+                if c == "Go" and not in_method:
+                    if thats_all_at is not None:
+                        return None      # Go right after a That's all in rounds: same corner as below
+                    g = i - 1
+                    m = g + 1 if ((g + 1) % 2 == 0) == sp_hand else g + 2
+                elif c == "That's all":
+                    if not in_method and m is not None:
+                        # That's all while a start is pending: an order-sensitive corner the property's
+                        # text does not settle (the model covers it; this oracle abstains)
+                        return None
+                    thats_all_at = i - 1
+                elif c == "Stand next":
+                    stand = True
+                elif c == "Rounds":
+                    to_opening_from = i
+        prev = kinds[i - 1] if i else None
+        prev_is_rounds = prev is not None and is_rounds_row(prev)
+        # stop-at-rounds: rounds came up after the method started
+        # (a Rounds call puts Wheatley back on the opening row: that is not "rounds coming up")
+        if stop_at_rounds and prev is not None and prev != "O" and prev_is_rounds \
+                and not (to_opening_from is not None and i >= to_opening_from):
+            stand = True
+        if stand and i % 2 == 0:
+            break                  # stops before this handstroke
+        if m is not None and i == m:
+            k = 0
+            m = None
+            to_rounds_from = None
+            to_opening_from = None
+            thats_all_at = None
+        if thats_all_at is not None:
+            if prev_is_rounds or i >= thats_all_at + 2:
+                to_rounds_from = i if to_rounds_from is None else to_rounds_from
+                thats_all_at = None
+                k = None
+        if to_opening_from is not None and i >= to_opening_from:
+            kinds.append("O")
+        elif k is not None:
+            kinds.append(("M", k))
+            k += 1
+        elif to_rounds_from is not None and i >= to_rounds_from:
+            kinds.append("R")
+        else:
+            kinds.append("O")
+    return kinds
+
+
+class StartStopSuite(SystemSuite):
+    """Exhaustive placement of Go / That's all / Rounds / Stand next over the first rows of a
+    touch, both start strokes, up-down-in and stop-at-rounds on and off, towers with covers."""
+    name = "start_stop"
+    fuel = 20000
+    coq_cap = {"quick": 400}
+
+    def __init__(self, which="both"):
+        self.which = which
+
+    def make(self, rng, *, stage, n, start_index, udi, sar, placements, nrows, custom=None, method="x1x1x1,2",
+             stray_go=False, relook_row=None):
+        dur = Fraction(1, 8)
+        look_to = Fraction(131, 1000)
+        sch = Schedule(look_to, dur)
+        evs = [ev(0, "global", [True] * n), ev(look_to, "call", "Look to")]
+        if stray_go:       # a Go nobody should remember: delivered while Wheatley is idle
+            evs.append(ev(Fraction(57, 1000), "call", "Go"))
+        if relook_row is not None:   # a fresh Look to right after a whole pull has been completed
+            evs.append(ev(sch.pause(relook_row * n + n - 1, Fraction(1, 2)), "call", "Look to"))
+        calls = []
+        for (row, place, in_pause, call) in placements:
+            j = row * n + place
+            t = sch.pause(j, Fraction(rng.randint(20, 80), 101)) if in_pause else sch.wait(j, Fraction(rng.randint(5, 95), 101))
+            evs.append(ev(t, "call", call))
+            calls.append((t, (j + 1) // n if in_pause else row, call))
+        calls = [(r, c) for (_t, r, c) in sorted(calls)]      # delivery order
+        spec = {"kind": "pn", "stage": stage, "method": method, "bob": None, "single": None,
+                "start_index": start_index, "custom": custom}
+        return {"gen": spec, "udi": udi, "stop_at_rounds": sar, "call_comps": True, "name": None, "instance": None,
+                "rhythm": {"kind": "scripted", "durs": [fstr(dur)] * (nrows * n + 8)}, "delta": "0",
+                "horizon": fstr(sch.end_of(nrows * n) + Fraction(1, 3000)), "events": sorted_events(evs),
+                "oracle": {"calls": calls, "nrows": nrows, "n": n, "relook_row": relook_row}}
+
+    def scenarios(self, rng, tier):
+        nrows = 12
+        configs = []
+        for stage, n in ((4, 4), (4, 5), (6, 6), (5, 8)):
+            for start_index in (0, 1, -1, 2):
+                for udi in (False, True):
+                    for sar in (False, True):
+                        configs.append((stage, n, start_index, udi, sar))
+        if tier == "quick":
+            configs = [c for i, c in enumerate(configs) if i % 2 == (rng.random() < 0.5)]
+        for (stage, n, si, udi, sar) in configs:
+            method = "x1x1,2" if stage % 2 == 0 else "3.1"
+            mk = lambda pl: self.make(rng, stage=stage, n=n, start_index=si, udi=udi, sar=sar, placements=pl,
+                                      nrows=nrows, method=method)  # noqa: E731
+            yield mk([])
+            rows = range(0, 7)
+            for g in rows:                                   # one Go anywhere in the first rows
+                place = rng.randrange(n)
+                yield mk([(g, place, rng.random() < 0.3, "Go")])
+            for g in range(0, 4):                            # Go, then a stop call
+                for t in range(g, 9):
+                    for c in ("That's all", "Stand next", "Rounds"):
+                        if rng.random() < (0.35 if tier == "quick" else 1.0):
+                            yield mk([(g, rng.randrange(n), False, "Go"), (t, rng.randrange(n), rng.random() < 0.3, c)])
+            yield self.make(rng, stage=stage, n=n, start_index=si, udi=udi, sar=sar, placements=[], nrows=nrows,
+                            method=method, stray_go=True)
+            for g in (0, 1):                                 # false start: Go, then Look to again
+                for r in (1, 3):
+                    if r >= g:
+                        yield self.make(rng, stage=stage, n=n, start_index=si, udi=udi, sar=False, nrows=nrows,
+                                        placements=[(g, rng.randrange(n), False, "Go")], method=method, relook_row=r)
+            for g in range(0, 3):                            # repeated / superfluous Go; Go after That's all
+                g2 = rng.randint(g + 1, 8)
+                yield mk([(g, 0, False, "Go"), (g2, rng.randrange(n), False, "Go")])
+                t = rng.randint(g + 2, 5)
+                yield mk([(g, 0, False, "Go"), (t, 1, False, "That's all"), (rng.randint(t + 2, 9), 0, False, "Go")])
+        # custom start rows and up-down-in with a backstroke start
+        for _ in range(10 if tier == "quick" else 60):
+            stage = rng.choice([4, 6])
+            n = stage + rng.choice([0, 1, 2])
+            k = rng.randint(2, n)
+            row = list(gens.BELL_NAMES[:k])
+            rng.shuffle(row)
+            yield self.make(rng, stage=stage, n=n, start_index=rng.choice([0, 1]), udi=rng.random() < 0.5,
+                            sar=rng.random() < 0.5, placements=[(rng.randint(0, 4), 0, False, "Go"),
+                                                                (rng.randint(4, 8), 1, False, rng.choice(["That's all", "Stand next"]))],
+                            nrows=nrows, custom="".join(row), method="x1x1,2")
+
+    def key(self, case):
+        c = dict(case)
+        return json.dumps(c, sort_keys=True, default=str)
+
+    def to_coq(self, case, out):
+        c = {k: v for k, v in case.items() if k != "oracle"}
+        return scenario_coq(c, out, self.fuel, self.tol, self.min_margin)
+
+    def run_impl(self, case):
+        c = {k: v for k, v in case.items() if k != "oracle"}
+        return sim.run_scenario(c, gens.build_impl_generator)
+
+    # ---- oracle shared by C06 and C07
+    def _check(self, case, out):
+        if "trace" not in out:
+            return None
+        orc = case["oracle"]
+        n = orc["n"]
+        spec = case["gen"]
+        stage = spec["stage"]
+        custom = spec["custom"]
+        if custom is not None and len(custom) > n:
+            return None
+        opening = [gens.BELL_NAMES.index(c) + 1 for c in custom] if custom else []
+        opening += [b for b in range(1, n + 1) if b not in opening]
+        rounds = list(range(1, n + 1))
+        sp_hand = spec["start_index"] % 2 == 0
+        # method rows from the textbook reading of the notation
+        from suites.gens import textbook_change, apply_change
+        pn = {"x1x1,2": [[], [1], [], [1], [], [1], [], [2]], "3.1": [[3], [1]]}[spec["method"]]
+        start_row = opening[:max(stage, len(custom or ""))] if custom else rounds[:stage]
+        mrows, row = [], list(start_row)
+        for i in range(orc["nrows"] + 2):
+            src = textbook_change(stage, pn[(i + spec["start_index"]) % len(pn)])
+            row = apply_change(src, row)
+            mrows.append(row + opening[len(row):])
+
+        def row_of(kind):
+            if kind == "O":
+                return opening
+            if kind == "R":
+                return rounds
+            return mrows[kind[1]]
+
+        got = [(r, bells) for (r, bells, _t) in rows_rung(out) if len(bells) == n]
+        calls, nrows_spec = orc["calls"], orc["nrows"]
+        if orc.get("relook_row") is not None:
+            # the second Look to begins a new touch: only that touch is judged here, and the calls of
+            # the first one must have been forgotten
+            k = orc["relook_row"] + 1
+            if len(got) <= k or got[k][0] != 0:
+                return f"the second Look to (after row {orc['relook_row']}) did not start a new touch at row 0"
+            got = got[k:]
+            calls = [(r - k, c) for (r, c) in calls if r >= k]
+            nrows_spec = len(got)
+        kinds = touch_spec(nrows_spec, sp_hand, case["udi"], case["stop_at_rounds"], calls,
+                           lambda kd: row_of(kd) == rounds)
+        if kinds is None:
+            return None
+        if out["outcome"][0] == "crashed":
+            return f"main loop died: {out['outcome'][1:3]}"
+        for i, kd in enumerate(kinds):
+            if i >= len(got):
+                if i < nrows_spec - 1:
+                    return f"row {i} expected {kd} but ringing had stopped"
+                break
+            if got[i][1] != row_of(kd):
+                return f"row {i}: expected {kd} = {row_of(kd)}, rang {got[i][1]} (kinds {kinds})"
+            if got[i][0] != i:
+                return f"row {i} carried row number {got[i][0]}"
+        if len(kinds) < nrows_spec and len(got) > len(kinds):
+            return f"rang {len(got)} rows but should have stopped after {len(kinds)} (kinds {kinds})"
+        # strokes alternate from handstroke and each bell ends at hand when ringing stopped
+        st = strikes(out)
+        if len(kinds) < nrows_spec and orc.get("relook_row") is None:
+            per_bell = {}
+            for (_t, b, _h) in st:
+                per_bell[b] = per_bell.get(b, 0) + 1
+            odd = [b for b, c in per_bell.items() if c % 2]
+            if odd:
+                return f"bells {odd} were struck an odd number of times before standing"
+        return None
+
+    def oracle_C06(self, case, out):
+        return self._check(case, out)
+
+    def oracle_C07(self, case, out):
+        return self._check(case, out)
+
+    def oracle_C01(self, case, out):
+        if "trace" not in out:
+            return None
+        n = case["oracle"]["n"]
+        for (r, bells, _t) in rows_rung(out):
+            if len(bells) == n and sorted(bells) != list(range(1, n + 1)):
+                return f"row {r} = {bells} is not a complete row of the tower"
+        return None
